@@ -2068,7 +2068,137 @@ mod srvlevel {
         (line.to_string(), obs, fails)
     }
 
-    /// run every `srv …` / `sig …` / `gate …` / `fault …` line concurrently; result per line: (op, observation, oracle failures)
+    /// one real-server scenario in this process (the hidden sub-command `scnchild <line>`): the result goes to stdout as one line,
+    /// fields separated by U+001F: `R`, rewritten op, observation, oracle failures …
+    pub fn scnchild(line: &str) {
+        let l = line.to_string();
+        let l2 = l.clone();
+        let r = std::panic::catch_unwind(move || match l.split_whitespace().next() {
+            Some("gate") => run_gate(&l),
+            Some("fault") => run_fault(&l),
+            _ => run_srv(&l),
+        })
+        .unwrap_or_else(|_| (l2, "panic".to_string(), vec!["the server-level scenario panicked".to_string()]));
+        let clean = |x: &str| x.replace(['\u{1f}', '\n', '\r'], " ");
+        let mut out = format!("R\u{1f}{}\u{1f}{}", clean(&r.0), clean(&r.1));
+        for f in &r.2 {
+            out.push('\u{1f}');
+            out.push_str(&clean(f));
+        }
+        use std::io::Write;
+        let so = std::io::stdout();
+        let mut so = so.lock();
+        let _ = writeln!(so, "{out}");
+        let _ = so.flush();
+    }
+
+    /// wall-clock cap for one scenario in a child process (the slowest ones take well under a minute, also on a loaded machine)
+    const CHILD_CAP: Duration = Duration::from_secs(420);
+
+    /// run one `srv` / `gate` / `fault` line in a child process, so that the death of the whole process (a panic while unwinding
+    /// aborts, a signal) is an observed outcome of the scenario instead of the end of this harness
+    fn run_in_child(line: &str) -> (String, String, Vec<String>) {
+        use std::io::Read;
+        use std::os::unix::process::ExitStatusExt;
+        use std::process::{Command, Stdio};
+        let kind = line.split_whitespace().next().unwrap_or("");
+        let tags = match kind {
+            "fault" => "[C08,C01] ",
+            "gate" => "[C07] ",
+            _ => "[C06] ",
+        };
+        let exe = match std::env::current_exe() {
+            Ok(e) => e,
+            Err(_) => return (line.to_string(), "bad-op".into(), vec![]),
+        };
+        let mut child = {
+            let mut tries = 0;
+            loop {
+                match Command::new(&exe).args(["scnchild", line]).stdin(Stdio::null()).stdout(Stdio::piped()).stderr(Stdio::null()).spawn() {
+                    Ok(c) => break c,
+                    Err(_) if tries < 40 => {
+                        tries += 1; // out of processes / memory for a moment
+                        std::thread::sleep(Duration::from_millis(250));
+                    }
+                    Err(_) => return (format!("{line} skip=ports"), "skipped".into(), vec![]),
+                }
+            }
+        };
+        let mut so = child.stdout.take().unwrap();
+        let reader = std::thread::spawn(move || {
+            let mut s = String::new();
+            let _ = so.read_to_string(&mut s);
+            s
+        });
+        let t0 = Instant::now();
+        let status = loop {
+            match child.try_wait() {
+                Ok(Some(st)) => break Some(st),
+                Ok(None) if t0.elapsed() < CHILD_CAP => std::thread::sleep(Duration::from_millis(20)),
+                _ => {
+                    let _ = child.kill();
+                    let _ = child.wait();
+                    break None;
+                }
+            }
+        };
+        let text = reader.join().unwrap_or_default();
+        let result = text.lines().find_map(|l| {
+            let mut f = l.split('\u{1f}');
+            if f.next() != Some("R") {
+                return None;
+            }
+            let op = f.next()?.to_string();
+            let obs = f.next()?.to_string();
+            Some((op, obs, f.map(|x| x.to_string()).collect::<Vec<_>>()))
+        });
+        match status {
+            None => (
+                line.to_string(),
+                "hung".into(),
+                vec![format!("{tags}the server process did not finish the scenario within {} s and had to be killed{}", CHILD_CAP.as_secs(), match &result {
+                    Some((_, o, _)) => format!(" (the scenario itself had ended: {o})"),
+                    None => String::new(),
+                })],
+            ),
+            Some(st) => match (st.signal(), result) {
+                (Some(sig), res) => {
+                    let what = if kind == "fault" {
+                        "when a worker died by panic on a plain Tokio runtime (no actix System, no Arbiter)"
+                    } else {
+                        "during the scenario"
+                    };
+                    let seen = match &res {
+                        Some((_, o, _)) => format!("the scenario had been judged ({o}) and the process died while it wound the server down"),
+                        None => "nothing was reported: every connection the process held was lost with it, the other workers and the accept thread included".to_string(),
+                    };
+                    let mut fails = vec![format!(
+                        "{tags}the server process aborted (signal {sig}{}) {what}: {seen}; the death of one worker must stay the death of one worker",
+                        match sig {
+                            6 => ", SIGABRT",
+                            11 => ", SIGSEGV",
+                            4 => ", SIGILL",
+                            7 => ", SIGBUS",
+                            _ => "",
+                        }
+                    )];
+                    if let Some((_, _, f)) = res {
+                        fails.extend(f);
+                    }
+                    (line.to_string(), "aborted".into(), fails)
+                }
+                (None, Some(r)) => r,
+                (None, None) => (
+                    line.to_string(),
+                    "panic".into(),
+                    vec![format!("{tags}the server process ended (exit code {:?}) without reporting on the scenario", st.code())],
+                ),
+            },
+        }
+    }
+
+    /// run every `srv …` / `sig …` / `gate …` / `fault …` line concurrently; result per line: (op, observation, oracle failures).
+    /// `srv`, `gate` and `fault` host a real Server: each runs in a process of its own (`sig` starts its own server process)
     pub fn run_jobs(lines: &[String]) -> Vec<(String, String, Vec<String>)> {
         let mut out = vec![];
         for batch in lines.chunks(12) {
@@ -2080,9 +2210,7 @@ mod srvlevel {
                         let l2 = l.clone();
                         let r = std::panic::catch_unwind(move || match l.split_whitespace().next() {
                             Some("sig") => run_sig(&l),
-                            Some("gate") => run_gate(&l),
-                            Some("fault") => run_fault(&l),
-                            _ => run_srv(&l),
+                            _ => run_in_child(&l),
                         });
                         r.unwrap_or_else(|_| (l2, "panic".to_string(), vec!["the server-level scenario panicked".to_string()]))
                     })
@@ -2676,6 +2804,11 @@ fn main() {
     let argv: Vec<String> = std::env::args().collect();
     if argv.get(1).map(|s| s.as_str()) == Some("sigchild") {
         srvlevel::sigchild(argv.get(2).and_then(|t| t.parse().ok()).unwrap_or(1));
+        return;
+    }
+    if argv.get(1).map(|s| s.as_str()) == Some("scnchild") {
+        silence_panics();
+        srvlevel::scnchild(argv.get(2).map(|s| s.as_str()).unwrap_or(""));
         return;
     }
     let a = parse_args();
